@@ -32,19 +32,19 @@ type propDef struct {
 }
 
 var props = map[string]propDef{
-	"C27": {"exploration", 1600, 40000,
+	"C27": {"exploration", 2400, 40000,
 		"Each case: a generated parent state (scalars, dense/sparse indexed arrays, associative arrays, exported/readonly variables, functions, aliases, options, cwd and directory stack, positional parameters; one third inside a function with locals), a generated mutating command list S placed in one isolating context (( ), $( ), <( ), >( ), first/middle/last pipeline stage, background job + wait, nestings), optional parent-side statements T that run while the child is alive, a seeded scheduling strategy, pipe capacity and I/O faults inside S. Oracle: in-shell dump (declare -p, declare -f, alias, shopt, set +o, pwd, dirs, params) and Go-level Runner.Vars/Funcs/Dir/Params after the final wait equal those of a sequential reference run of SETUP;T without S. Non-trivial: S non-empty and the run executed; distinct = distinct (program, schedule tape, faults) hashes.",
 		[]string{"the reference run (same interpreter, no S, sequential schedule) defines the expected parent state", "output of S itself is discarded; data races are reported under C32"}},
-	"C29": {"exploration", 1600, 40000,
+	"C29": {"exploration", 4000, 60000,
 		"Each case: a generated program (alias chains, declare/export with brace-expanded arguments, brace expansion in arguments/array elements/for lists, here-documents incl. <<-, functions, traps, background and piped statements, +=, nested substitutions, assignments to every variable kind served by the supplied Environ) run under a seeded schedule with optional cancellation at a seeded step and I/O faults. Oracle: typed-JSON and printed form of the *File taken before Run equal those taken after Run returned and every spawned goroutine finished; the recording Environ given through interp.Env saw no Set call and serves deep-equal values (including the spare capacity of its indexed array). Non-trivial: more than 3 scheduling steps; distinct = distinct (program, tape, faults) hashes.",
 		[]string{"typedjson encoding plus the printed form are taken as 'the tree'"}},
-	"C30": {"exploration", 1400, 30000,
+	"C30": {"exploration", 2800, 40000,
 		"Each case: a history of 1..6 generated programs on one Runner (assignments, options, traps, functions, aliases, cd/pushd, exit, failing and fatal commands, exec redirections, quiet background jobs left running), each ending normally, by exit, by a fatal handler error or by cancellation at a seeded step, then Reset and P; compared with P on a Runner made by New with the same options (stdout, stderr, returned error, Exited, Vars, Funcs, Dir, Params). One quarter of the cases instead compare Run(file) with one Run call per top-level statement stopping at Exited (programs without EXIT trap). Non-trivial: the history run finished; distinct = distinct (history+P, tape, faults) hashes.",
 		[]string{"external state (simulated files, consumed stdin) is kept out of the comparison by construction: histories never read the shared stdin nor write files P reads"}},
-	"C31": {"exploration", 3600, 60000,
+	"C31": {"exploration", 3800, 60000,
 		"Each case: one of 93 listed non-terminating or forever-blocking programs, or a program composed from 26 never-ending cores and 44 status-consuming constructs nested up to two deep (listed shapes: infinite loops in every syntactic position, blocked read/read -a/mapfile/select/cat on a silent stdin, wait and wait gN on sleeping/looping/blocked jobs, process substitutions never opened / opened but never read / read slowly, pipelines blocked on either side with tiny pipe capacity, here-document writers blocked on a full pipe, commands that ignore cancellation for up to 2 s) with a seeded prefix, crossed with the cancellation step: steps 0..23 are enumerated for every listed program, steps of composed programs and later steps are drawn; a third of the cases run 1-2 warm-up Run calls with contexts of their own on the same Runner first, an eighth run statement by statement; the cancellation fires at that controller step or at the first idle instant before it. Oracle after the cancel event: Run returns within 2000 scheduling steps and 3 s of simulated time, never ends in a state where nothing is runnable and no timer is pending, and returns a non-nil error. Non-trivial: the cancellation fired; distinct = distinct (program, tape, cancel step) hashes.",
 		[]string{"simulated commands honour the context at once except 'stubborn d' (d <= 2 s), which stands for a child that ignores SIGINT until the kill timeout", "the real DefaultExecHandler signalling path is outside the simulation"}},
-	"C32": {"exploration", 2000, 50000,
+	"C32": {"exploration", 3600, 60000,
 		"Each case is one of: (race) a generated parent state and statement lists S and T touching the same names, S in a concurrent construct (background job, background subshell, >( ), both sides of | and |&, command substitution inside a job, <( ) inside a job, two jobs, a function run in a job) and T in the parent, under a seeded schedule with I/O faults; (subshell-api) Runner.Subshell() copy and parent run generated programs concurrently; (wait) 1..5 jobs with distinct exit codes and simulated durations, then wait gJ; echo $? in seeded order. Oracle: the Go race detector (scheduler hand-offs hidden from it, so serialisation adds no happens-before edges) reports nothing during the run, no panic, and the wait statuses printed are the jobs' codes, bare wait gives 0, an unknown job id gives 1. Non-trivial: at least one context switch between live goroutines; distinct = distinct (program, tape, faults) hashes.",
 		[]string{"race reports are attributed to the first run of a worker process that shows them (the detector reports a given pair of stacks once per process); replay and minimisation use fresh processes", "simulated pipes keep a visible mutex (bytes written then read are causality); production os.Pipe orders strictly more"}},
 }
